@@ -70,7 +70,9 @@ def draw_op(rng, name, fault_rate):
         kind = rng.choice(["inside", "inside", "on_sample", "between", "outside_end", "negative", "inverted", "whole",
                            "just_past_end", "near_end"])
         return {"op": "trim", "i": i, "kind": kind, "a": rng.random(), "b": rng.random(),
-                "off": rng.choice([0.0, 0.25, 0.4, 0.49, 0.51, 0.75])}
+                "off": rng.choice([0.0, 0.25, 0.4, 0.49, 0.51, 0.75]),
+                # times taken from an array are numpy scalars (float64, or an integer number of seconds)
+                "num": rng.choice(["float"] * 5 + ["np64", "npint"])}
     if name == "filter":
         return {"op": "filter", "i": i, "fcs": rng.choice([[0.5, None], [None, 10.0], [0.5, 10.0], [None, None]]),
                 "order": rng.choice([2, 5])}
@@ -79,7 +81,8 @@ def draw_op(rng, name, fault_rate):
     if name == "window":
         return {"op": "window", "i": i, "width": rng.choice([0.0, 0.1, 0.5, 1.0])}
     if name == "orient":
-        return {"op": "orient", "i": i, "deg": rng.choice([0.0, 45.0, 90.0, 400.0, -30.0, 720.0, 123.456])}
+        return {"op": "orient", "i": i, "deg": rng.choice([0.0, 45.0, 90.0, 400.0, -30.0, 720.0, 123.456]),
+                "num": rng.choice(["float"] * 5 + ["np64", "npint", "np32"])}
     if name == "split":
         return {"op": "split", "i": i, "frac": rng.choice([0.2, 0.34, 0.5, 0.99, 1.5])}
     if name in ("copy", "ts_copy", "construct"):
@@ -134,7 +137,8 @@ def sample_arrays(o, H):
 
 
 def jsonish(x):
-    return json.loads(json.dumps(x))
+    """Content of a metadata value as JSON keeps it (tuples become lists; numpy scalars are the numbers they hold)."""
+    return json.loads(json.dumps(x, default=lambda o: o.tolist() if isinstance(o, (np.generic, np.ndarray)) else str(o)))
 
 
 def saved_view(o):
@@ -241,10 +245,17 @@ def step(ctx, st, op, H):
         else:
             s, e = a * T, b * T
         s, e = float(s), float(e)
+        if op.get("num") == "npint" and T > 4:
+            s, e = float(int(s)), float(max(int(e), int(s) + 1))      # whole seconds
+        s_arg, e_arg = s, e
+        if op.get("num") == "np64":
+            s_arg, e_arg = np.float64(s), np.float64(e)
+        elif op.get("num") == "npint" and T > 4:
+            s_arg, e_arg = np.int64(s), np.int64(e)
         old = [np.array(x) for x in sample_arrays(rec, H)]
         exc = None
         try:
-            rec.trim(s, e)
+            rec.trim(s_arg, e_arg)
         except Exception as ex:                              # noqa
             exc = ex
         targets = [rec]
@@ -283,7 +294,14 @@ def step(ctx, st, op, H):
             elif name == "window":
                 rec.window("tukey", op["width"])
             else:
-                rec.orient_sensor_to(op["deg"])
+                d_ = op["deg"]
+                if op.get("num") == "np64":
+                    d_ = np.float64(d_)
+                elif op.get("num") == "np32":
+                    d_ = np.float32(d_)
+                elif op.get("num") == "npint" and float(d_).is_integer():
+                    d_ = np.int64(d_)
+                rec.orient_sensor_to(d_)
         except Exception as ex:                              # noqa
             info = type(ex).__name__
         ctx.state_changes += 1
@@ -444,6 +462,14 @@ def step(ctx, st, op, H):
         path = op["path"]
         fault = copy.deepcopy(op.get("fault"))
         view = saved_view(rec)
+        try:                                           # without any fault, a recording in any reachable state can be saved
+            chk = SimFS(SimDisk(), None)
+            with Patched(chk, modules=(__import__("hvsrpy.seismic_recording_3c", fromlist=["x"]),)):
+                rec.save(path)
+        except Exception as ex:                          # noqa
+            ctx.check(False, "save_raised", f"save() of a recording raised {type(ex).__name__}: {ex} "
+                      f"(orientation {rec.degrees_from_north!r}, meta keys {sorted(map(str, rec.meta))})", key={"exc": type(ex).__name__})
+            return
         if fault:
             dry = SimFS(SimDisk(), None)               # dry run on a scratch disk: how long is this write?
             with Patched(dry, modules=(__import__("hvsrpy.seismic_recording_3c", fromlist=["x"]),)):
